@@ -130,16 +130,20 @@ def oracle(case, res, names):
     parsed = {d: G.parse_cmakelists(t) for d, t in res["cmakes"].items()}
     described = sorted(p["schema"] for p in parsed.values())
     early = []
-    if len(set(dirs)) != len(names) or described != sorted(names):
-        lost = sorted(set(names) - set(described))
+    # a schema that declares neither a type nor an entity gets no generated code (multpass.c) and, since fix C17-4, no build
+    # description: it is expected among the described ones only if the scanner did describe it (then its lists are compared below)
+    codeless = {n for n, ds in (case.ast or []) if not any(l.startswith(("ent ", "type ")) for l in ds)}
+    expected = sorted(n for n in names if n not in codeless or n in described)
+    if len(set(dirs)) != len(expected) or described != expected:
+        lost = sorted(set(expected) - set(described))
         # decided from the input (file path + schema names), not from the symptom: a collision is when makeShortName maps
         # two schemas of the file to one name
-        shorts = {n: make_short_name(res["exp"], n) for n in names}
-        colliding = sorted(n for n in names if sum(1 for m in names if shorts[m] == shorts[n]) > 1)
-        if colliding:
+        shorts = {n: make_short_name(res["exp"], n) for n in expected}
+        colliding = sorted(n for n in expected if sum(1 for m in expected if shorts[m] == shorts[n]) > 1)
+        if colliding and len(set(dirs)) < len(expected):
             early.append(("shortname-collision",
                           f"schemas {colliding} of one file all get the build directory {sorted(set(shorts[n] for n in colliding))}; "
-                          f"{len(names)} schemas, {len(set(dirs))} distinct directories printed; no build description survives for {lost}"))
+                          f"{len(expected)} schemas with a build description expected, {len(set(dirs))} distinct directories printed; no build description survives for {lost}"))
         for n in lost:
             if n in colliding:
                 continue
@@ -315,6 +319,7 @@ def correspondence(ctx, case, res, names, model_exe, b=None):
             lines.append("pschema " + sn)
             lines += ls
         lines.append("printfile")
+        lines.append("selorder")
     # ComplexCollect (built before anything is written; compstructs.cc is printed from it): the lists the model keeps after
     # the constructor's pruning loop vs the `// ComplexList with supertype "…":` lines of the real compstructs.cc
     cls = G.complex_lists_from_dump(b, res["exp"]) if (b is not None and "cx_dir" in res) else None
@@ -334,6 +339,10 @@ def correspondence(ctx, case, res, names, model_exe, b=None):
             early_dis = None
     else:
         early_dis = None
+    selq = None
+    if pobjs is not None and rc == 0 and len(out) == len(lines) and lines and lines[-1] == "selorder":
+        selq = out.pop()
+        lines.pop()
     if rc != 0 or len(out) != len(lines) or "bad-op" in out:
         return [f"model driver rc={rc} answered {len(out)}/{len(lines)} lines {err[-200:]} {[o for o in out if o == 'bad-op'][:1]}"]
     n0 = len(G.ast_lines(res["exp"], case.ast))
@@ -346,12 +355,32 @@ def correspondence(ctx, case, res, names, model_exe, b=None):
         ctx.hist("passes", "SCHEMAprint suffixes predicted by Pass.printFile" + (" (multi-pass or unprinted schema)" if any(v != "0" for v in want.values()) else ""))
         if got != want:
             dis.append(f"SCHEMAprint suffixes per schema: exp2cxx {want} vs Pass.printFile {got}")
+        # the ORDER in which the select loop of SCOPEPrint emits classes (#include of type/Sdai<T>.h) and typedef blocks of renamed
+        # selects, schema by schema, for files printed in one pass: real Sdai<SCHEMA>.h vs SelOrder.visitAll
+        if selq is not None and selq.startswith("Q") and all(v == "0" for v in want.values()) and "cx_dir" in res:
+            pred = {kv.split("=")[0]: [x for x in kv.split("=")[1].split(",") if x] for kv in selq[2:].split(";") if "=" in kv}
+            for sn in want:
+                hp = os.path.join(res["cx_dir"], f"Sdai{sn.upper()}.h")
+                if not os.path.exists(hp) or sn not in pred:
+                    continue
+                txt = open(hp, errors="replace").read()
+                a, bpos = txt.find("***** Build the SELECT Types"), txt.find("**************  ENTITIES")
+                real = [("c:" if m.group(1) else "t:") + (m.group(1) or m.group(2))
+                        for m in re.finditer(r'(?m)^#include "type/(Sdai[^"]*)\.h"|^typedef (Sdai\w+) \*        \2H;', txt[a:bpos])] if 0 <= a < bpos else []
+                cls = lambda q: "Sdai" + q.split(".", 1)[1].capitalize()
+                want_ev = [e[:2] + cls(e[2:]) for e in pred[sn]]
+                ctx.hist("selects", "emission order of the select loop predicted by SelOrder.visitAll" + (" (2+ selects)" if len(real) > 1 else ""))
+                if real != want_ev:
+                    dis.append(f"select emission order in Sdai{sn.upper()}.h: exp2cxx {real[:8]} vs SelOrder.visitAll {want_ev[:8]}")
+                    break
     parts = scan[2:].split(" | ")
     shorts = parts[0].split()
     if [os.path.basename(d) for d in res["dirs_out"]] != shorts or any(os.path.dirname(d) != res["sc_dir"] for d in res["dirs_out"]):
         dis.append(f"stdout of the scanner {res['dirs_out']} vs model <cwd>/{shorts}")
     mfs = {}
     for p in parts[1:]:
+        if not p.strip():
+            continue          # no schema of the file gets a build description
         d, _, hx = p.partition(" ")
         mfs[d] = bytes.fromhex(hx).decode("utf-8", "replace")
     if set(mfs) != set(res["cmakes"]):
